@@ -154,7 +154,10 @@ Definition cache_hit (c : cfg) (a : ana) (s : fs) : bool :=
   | _ => false
   end.
 
-(* ---- CLI: generate *)
+(* ---- CLI: generate. The effective configuration c is the file's settings (taken
+   unvalidated from tauri.conf.json) with the flags applied on top; it is validated
+   here, as a whole, before anything else happens: an invalid library or a missing
+   project path, wherever it came from, refuses the run with nothing written. *)
 Definition run_generate (c : cfg) (a : ana) (s : fs) : fs * outcome :=
   if negb (c_lib_ok c) then (s, Failed)                 (* config.validate *)
   else if negb (exists_b s (c_proj c)) then (s, Failed)
